@@ -137,6 +137,39 @@ pub fn run(run: &Run) {
             cp += n as u32;
         }
     });
+    // all ordered triples of the 240 code points of the Halfwidth and Fullwidth Forms block U+FF00..U+FFEF (mapped, unmapped and unassigned
+    // members alike) through the rule: a lookup that remembers where the previous lookup ended
+    run.par("all_triples_of_the_fullwidth_block", true, |tid, n, l| {
+        let block: Vec<char> = (0xff00u32..0xfff0).filter_map(char::from_u32).collect();
+        let mut s = String::with_capacity(12);
+        for (i, a) in block.iter().enumerate() {
+            if i % n != tid {
+                continue;
+            }
+            if run.stopped() {
+                return;
+            }
+            for b in block.iter() {
+                for c in block.iter() {
+                    s.clear();
+                    s.push(*a);
+                    s.push(*b);
+                    s.push(*c);
+                    l.cases += 1;
+                    l.eval();
+                    let want: String = ref_width(&s);
+                    let got = imp_rule(profs[i % 2], RuleKind::Width, &s);
+                    if got != Ok(want) {
+                        // through the full check for the report
+                        if check(profs[i % 2], &s, l).is_err() {
+                            report(run, profs[i % 2], &s);
+                            return;
+                        }
+                    }
+                }
+            }
+        }
+    });
     run.par("all_pairs_of_width_mapped", true, |tid, n, l| {
         let w = &pools().width;
         for (i, a) in w.iter().enumerate() {
